@@ -24,6 +24,10 @@
     `PoisonProvisionalIfPanicking`), the debug `backdate violation`; unwinding runs the guards
     (`onPanic`).  `internal` collects salsa's `expect`/`assert` failures (never observed).
 
+  The model follows salsa INCLUDING the two repairs it led to (`fix: treat a provisional memo as
+  changed in maybe_changed_after` → `mcaStep`; `fix: keep changed_at of former cycle participants
+  monotone` → `backdateIfAppropriate`); known findings kf1 and kf2 are unrepaired and reproduced.
+
   Not modelled: other threads, cancellation counts (always 0), untracked reads, outputs /
   tracked structs, accumulators, LRU.  Values are 8-bit sets as in `Model/Cycle.lean`; the body
   language is that of `Model/Cycle.lean` with `ite` testing the low bit of an input (as the
@@ -792,6 +796,8 @@ def executeMaybeIterate (P : Prog) (sub : Eng) (c : Nat) (old : Option Memo) (s 
 def backdateIfAppropriate (old : Memo) (cq : Memo) : Option Memo :=
   if cq.heads.isEmpty && old.final && cq.dur ≥ old.dur && old.value == cq.value then
     if old.ca > cq.ca && old.heads.isEmpty then none else some { cq with ca := old.ca }
+  -- the changed_at of a memo that took part in a cycle never moves backwards
+  else if !old.heads.isEmpty && old.ca > cq.ca then some { cq with ca := old.ca }
   else some cq
 
 -- fn execute, first half: run the query function (`CycleRecoveryStrategy::Panic`: once;
@@ -919,7 +925,12 @@ def mcaStep (P : Prog) (sub : Eng) (c rev : Nat) (s : St) : Res (Bool × St) :=
         onPanic (fun st => releaseDefault st c) (
           match verifyMemo P sub c m s1 with
           | .error p => .error p
-          | .ok (true, s2) => .ok (decide (m.ca > rev), releaseDefault s2 c)
+          -- "always assume that a provisional value has changed" (a provisional memo accepted by
+          -- validate_same_iteration carries the changed_at of the iteration so far);
+          -- `may_be_provisional` is read AFTER `verify_memo`: lazy finalisation may just have
+          -- set `verified_final`
+          | .ok (true, s2) =>
+            .ok (decide (m.ca > rev) || !((memoOf s2 c).getD m).final, releaseDefault s2 c)
           | .ok (false, s2) =>
             if m.final then
               if m.value.isNone then .ok (true, releaseDefault s2 c)
